@@ -582,3 +582,9 @@ func finish(def *CheckDef, c *Ctx, rep *Report, wall time.Duration) int {
 	}
 	return exit
 }
+
+func (r *Report) tooMany() bool {
+	r.mu.Lock()
+	defer r.mu.Unlock()
+	return len(r.Violations) >= 20
+}
